@@ -12,6 +12,7 @@ import (
 	"encoding/binary"
 	"fmt"
 	"io"
+	"log"
 	"os"
 	"strconv"
 	"strings"
@@ -61,6 +62,7 @@ type wireCase struct {
 	Sentinel bool   // a complete frame follows (only when Body is complete)
 	Segs     []int
 	One      bool
+	Log      bool // Read is given a logger (the logging paths read parts of the payload for display)
 }
 
 func (c wireCase) describe() map[string]any {
@@ -69,7 +71,7 @@ func (c wireCase) describe() map[string]any {
 		b = b[:64]
 	}
 	return map[string]any{"L": c.L, "body_present": len(c.Body), "body_prefix_hex": fmt.Sprintf("%x", b),
-		"sentinel": c.Sentinel, "segs": c.Segs, "byte_at_a_time": c.One}
+		"sentinel": c.Sentinel, "segs": c.Segs, "byte_at_a_time": c.One, "logger": c.Log}
 }
 
 type wireReplay struct {
@@ -79,6 +81,7 @@ type wireReplay struct {
 	Sent    bool   `json:"sentinel"`
 	Segs    []int  `json:"segs"`
 	One     bool   `json:"one"`
+	Log     bool   `json:"log,omitempty"`
 }
 
 type readOutcome struct {
@@ -90,6 +93,8 @@ type readOutcome struct {
 	nextErr  error
 	alloc    uint64
 }
+
+var discardLogger = log.New(io.Discard, "", 0)
 
 func runRead(c wireCase, sentinel []byte, measure bool) (o readOutcome) {
 	stream := make([]byte, 0, 4+len(c.Body)+len(sentinel))
@@ -110,7 +115,11 @@ func runRead(c wireCase, sentinel []byte, measure bool) (o readOutcome) {
 				o.panicked = p
 			}
 		}()
-		o.msg, o.err = Read(r, nil)
+		var lg *log.Logger
+		if c.Log {
+			lg = discardLogger
+		}
+		o.msg, o.err = Read(r, lg)
 	}()
 	if measure {
 		o.alloc = allocNow() - a0
@@ -184,7 +193,7 @@ func (h *c04) judge(c wireCase) {
 	h.res.Add("evaluations", 1)
 	ids, id, _ := idOf(c)
 	complete := uint64(len(c.Body)) >= uint64(c.L)
-	rp := wireReplay{L: c.L, Sent: c.Sentinel, Segs: c.Segs, One: c.One}
+	rp := wireReplay{L: c.L, Sent: c.Sentinel, Segs: c.Segs, One: c.One, Log: c.Log}
 	if len(c.Body) <= 4096 {
 		rp.BodyHex = fmt.Sprintf("%x", c.Body)
 	} else {
@@ -296,6 +305,9 @@ func (h *c04) deliveries(c wireCase, allCuts bool) {
 	c2 := c
 	c2.One = true
 	h.judge(c2)
+	cl := c
+	cl.Log = true
+	h.judge(cl)
 	if allCuts {
 		total := 4 + len(c.Body)
 		for k := 1; k < total; k++ {
@@ -388,7 +400,7 @@ func TestVerifC04(t *testing.T) {
 		}
 		body := make([]byte, len(rp.BodyHex)/2)
 		fmt.Sscanf(rp.BodyHex, "%x", &body)
-		c := wireCase{L: rp.L, Body: body, Sentinel: rp.Sent, Segs: rp.Segs, One: rp.One}
+		c := wireCase{L: rp.L, Body: body, Sentinel: rp.Sent, Segs: rp.Segs, One: rp.One, Log: rp.Log}
 		fmt.Printf("case: %v\n", c.describe())
 		o := runRead(c, sentinelA, false)
 		fmt.Printf("Read -> msg=%v err=%v panic=%v consumed=%d next=%v/%v\n", o.msg, o.err, o.panicked, o.consumed, o.next, o.nextErr)
@@ -453,6 +465,60 @@ func TestVerifC04(t *testing.T) {
 	if mine() {
 		res.Sample(frameOf(shapes(13, 6, -1)[2]).describe())
 		res.Sample(wireCase{L: 9, Body: shapes(9, 20, 2)[3][:5]}.describe())
+	}
+
+	// A2. histories: the payload buffer of a decoded Piece is handed back (PutBuffer), as the
+	// peer does once the block is stored, and the next frame is decoded - on the
+	// same stream or on another one.  Every pair of Piece payload lengths around
+	// the block size; the second decode is judged like any other (exact
+	// consumption, payload length and content).
+	if mine() {
+		lens := []int{0, 1, 100, 16383, 16384, 16385}
+		for _, l1 := range lens {
+			for _, l2 := range lens {
+				for _, release := range []string{"put", "keep", "put-truncated"} {
+					h.res.Add("evaluations", 1)
+					mkp := func(l int, seed byte) []byte {
+						b := make([]byte, 9+l)
+						b[0] = 7
+						b[4] = 1 // index 1... begin 0
+						for i := 9; i < len(b); i++ {
+							b[i] = byte(i)*3 + seed
+						}
+						return append(binary.BigEndian.AppendUint32(nil, uint32(len(b))), b...)
+					}
+					f1, f2 := mkp(l1, 1), mkp(l2, 2)
+					r := bufio.NewReader(bytes.NewReader(append(append([]byte{}, f1...), f2...)))
+					m1, err1 := Read(r, nil)
+					if p, ok := m1.(Piece); ok && err1 == nil {
+						switch release {
+						case "put":
+							PutBuffer(p.Data)
+						case "put-truncated":
+							if len(p.Data) > 0 {
+								PutBuffer(p.Data[:len(p.Data)/2])
+							}
+						}
+					}
+					m2, err2 := Read(r, nil)
+					desc := fmt.Sprintf("[Piece of %d bytes decoded, buffer %s, then a Piece of %d bytes]", l1, release, l2)
+					rp := map[string]any{"kind": "release-history", "l1": l1, "l2": l2, "release": release}
+					p2, ok := m2.(Piece)
+					if err2 != nil || !ok {
+						h.res.Violate("C04/history/second-frame", fmt.Sprintf("the second frame decodes to %v / %v %s", m2, err2, desc), rp)
+						continue
+					}
+					if len(p2.Data) != l2 || !bytes.Equal(p2.Data, f2[13:]) {
+						h.res.Violate("C04/history/second-frame", fmt.Sprintf("the second frame decodes to a Piece of %d bytes (or other content) %s", len(p2.Data), desc), rp)
+						continue
+					}
+					if r.Buffered() != 0 {
+						h.res.Violate("C04/history/consumed", fmt.Sprintf("after both frames %d bytes of the stream are left %s", r.Buffered(), desc), rp)
+					}
+					h.nontriv[fmt.Sprintf("hist/%d/%d/%s", l1, l2, release)] = true
+				}
+			}
+		}
 	}
 
 	// B. large announced lengths
